@@ -1,2 +1,8 @@
 import WrglModel.Props.C08
-#print axioms Wrgl.C08_placeholder
+#print axioms Wrgl.C08_fact_revisit
+#print axioms Wrgl.C08_walk_lists_unfolding
+#print axioms Wrgl.C08_closed
+#print axioms Wrgl.C08_only_reachable
+#print axioms Wrgl.C08_parent_first
+#print axioms Wrgl.C08_terminates
+#print axioms Wrgl.C08_steps_exponential
